@@ -430,7 +430,7 @@ class SSHConfig:
                     elif not allow_equal:
                         args.extend(split_args[i-1:])
                         break
-                    elif arg.endswith('='):
+                    elif arg.endswith('=') and '=' not in arg[:-1]:
                         args.append(arg[:-1])
                     elif '=' in arg:
                         arg, val = arg.split('=', 1)
